@@ -415,8 +415,17 @@ pub fn run(ctx: &Ctx) -> i32 {
             }
         }
     }
+    if part == "lits" {
+        for (fi, f) in st.files.iter().enumerate() {
+            let n = f.lines.len() as u64;
+            let base = st.offsets[fi] + 3 * n + f.blocks.len() as u64 + f.refs.len() as u64 + (NUM_REPL.len() * f.nums.len()) as u64;
+            for k in 0..f.lits.len() as u64 {
+                idxs.push(base + k);
+            }
+        }
+    }
     match ctx.tier {
-        _ if part == "xml" => {}
+        _ if part == "xml" || part == "lits" => {}
         Tier::Thorough => idxs = (0..total).collect(),
         Tier::Quick => {
             for (fi, _f) in st.files.iter().enumerate() {
